@@ -13,4 +13,15 @@ func init() {
 		unsupported("unique.Make at %s", fr.w.where(fr.caller, fr.callpos))
 		return nil
 	}
+
+	// crypto/rand.Reader (websocket masking keys): fresh symbolic octets that are not part of the replay vector
+	// (the native run draws real random octets; harnesses must not observe values depending on them).
+	externals["(*crypto/rand.reader).Read"] = func(fr *frame, args []value) value {
+		w := fr.w
+		b := args[1].([]value)
+		for i := range b {
+			w.setCell(&b[i], fromTerm(w.newInternalInput("rand", 8)))
+		}
+		return tuple{uint64(len(b)), iface{}}
+	}
 }
